@@ -427,7 +427,13 @@ def build2(rows, form, in_dtype):
 		return tuple(v) if form == "tuple_numpy" else v
 	df = pandas.DataFrame({"example_idx": e, "annotation_idx": a})
 	if form == "tuple_series":
-		return (df["example_idx"], df["annotation_idx"])
+		# two Series whose index labels need not agree (one column comes from
+		# a re-ordered table): the pairing is by position
+		s_e = gen.reindex(df[["example_idx"]], "C18e", rows[:4], len(rows))[
+			"example_idx"]
+		s_a = gen.reindex(df[["annotation_idx"]], "C18a", rows[:4], len(
+			rows))["annotation_idx"]
+		return (s_e, s_a)
 	if form == "tuple_mixed":
 		return (df["example_idx"], torch.from_numpy(a.copy()))
 	raise AssertionError(form)
@@ -446,14 +452,16 @@ def build4(rows, form, in_dtype):
 		return torch.from_numpy(wide).type(td)[:, ::2]
 	cols = ["example_idx", "annotation_idx", "start", "end"]
 	if form == "dataframe":
-		return pandas.DataFrame(arr.astype(numpy.int64), columns=cols)
+		return gen.reindex(pandas.DataFrame(arr.astype(numpy.int64),
+			columns=cols), "C18df", rows[:4], len(rows))
 	if form == "dataframe_int32":
-		return pandas.DataFrame(arr.astype(numpy.int32), columns=cols)
+		return gen.reindex(pandas.DataFrame(arr.astype(numpy.int32),
+			columns=cols), "C18df32", rows[:4], len(rows))
 	bed = arr[:, [0, 2, 3]]
 	ann = arr[:, 1]
 	if form == "tuple_df_tensor":
-		df = pandas.DataFrame(bed.astype(numpy.int64), columns=["example_idx",
-			"start", "end"])
+		df = gen.reindex(pandas.DataFrame(bed.astype(numpy.int64), columns=[
+			"example_idx", "start", "end"]), "C18bed", rows[:4], len(rows))
 		return (df, torch.from_numpy(ann.astype(nd)))
 	if form == "tuple_df_tensorcol":
 		# (seqlet BED frame, idxs as returned by annotate_seqlets: (n, 1) int32)
@@ -481,7 +489,10 @@ def pick_n(r):
 		return r.randint(1, 10)
 	if u < 0.75:
 		return r.randint(11, 60)
-	return r.randint(61, 200)
+	if u < 0.95:
+		return r.randint(61, 200)
+	# more rows than an 8-bit (and, per example, than a signed 8-bit) counter
+	return r.randint(256, 600)
 
 
 def weighted_pool(r, n):
@@ -519,6 +530,8 @@ def pick_shape1(r, na):
 def gen_rows2(r):
 	n = pick_n(r)
 	nE, nA = r.randint(1, 8), r.randint(1, 10)
+	if n > 255 and r.random() < 0.7:
+		nE = r.randint(1, 2)        # > 255 rows in ONE example
 	pe, we = weighted_pool(r, nE)
 	pa, wa = weighted_pool(r, nA)
 	es = r.choices(pe, we, k=n)
@@ -577,6 +590,8 @@ def gen_rows4(r, cat, m):
 			"same_start", "same_end"] * (2 if cat == "overlap" else 1)
 	n = pick_n(r)
 	nE, nA = r.randint(1, 8), r.randint(1, 10)
+	if n > 255 and r.random() < 0.7:
+		nE = r.randint(1, 2)        # > 255 rows in ONE example
 	pe, we = weighted_pool(r, nE)
 	pa, wa = weighted_pool(r, nA)
 	span = r.choice([30, 100, 250, 2000, 20000])
